@@ -32,6 +32,7 @@ type c10cfg struct {
 	ctx                string         // none expired 5ms 3s 10s
 	ignoreCtx, ctxLike bool
 	expiry             time.Duration // StoreConfig.ExpiryAge (declared secrets never expire, however old the cache's stamps)
+	failKind           string        // "" | denied | notfound: what the scripted failures say (grants and secrets may arrive while a program starts)
 	customTicker       bool          // StoreConfig.PollTicker is set (to a ticker that never fires): start-up retries must not depend on it
 }
 
@@ -45,6 +46,9 @@ func (c c10cfg) String() string {
 	ex := ""
 	if c.customTicker {
 		ex = " custom-poll-ticker"
+	}
+	if c.failKind != "" {
+		ex += " failures-say=" + c.failKind
 	}
 	if c.expiry > 0 {
 		ex = fmt.Sprintf(" expiry-age=%v", c.expiry)
@@ -99,6 +103,7 @@ func runC10(t *testing.T, c c10cfg) (out c10out) {
 		svc := NewSvc()
 		svc.now = func() time.Duration { return time.Since(start) }
 		svc.IgnoreCtx, svc.CtxLikeErr, svc.MaxReqs = c.ignoreCtx, c.ctxLike, 400
+		svc.FailKind = c.failKind
 		uniq := map[string]bool{}
 		for _, n := range c.names {
 			uniq[n] = true
@@ -384,7 +389,7 @@ func checkC10(t *testing.T, env *report.Env, rep *report.Report) {
 		"service scripts per secret: success after k failures for k in {0,1,2,3,12,13,14}, or failure forever; failures are plain errors or look like timeouts that are not the caller's; the service either honours the caller's context or keeps answering from its script after it ended",
 	}
 	sec := rep.Add(&report.Section{Name: "construction-all-configurations", Engine: "enum", Exhaustive: true, Extra: map[string]int64{}, Outcomes: map[string]int64{},
-		Rule: "declared-list shape(8, incl. names repeated across Secrets and struct tags) × cache state(11, incl. a complete cache of empty-valued secrets; those with valid entries also with an expiry age configured) × per-secret failure script(8 each) × context(5) × service error style(4), each one NewStore execution under virtual time against the retry model; non-trivial = configurations in which at least one secret has to be fetched and at least one request fails"})
+		Rule: "declared-list shape(8, incl. names repeated across Secrets and struct tags) × cache state(11, incl. a complete cache of empty-valued secrets; those with valid entries also with an expiry age configured) × per-secret failure script(8 each) × context(5) × service error style(4; a further block makes the failures refusals or not-found answers), each one NewStore execution under virtual time against the retry model; non-trivial = configurations in which at least one secret has to be fetched and at least one request fails"})
 	lists := []struct {
 		name    string
 		names   []string
@@ -450,6 +455,33 @@ func checkC10(t *testing.T, env *report.Env, rep *report.Report) {
 
 	if env.Shard != 0 {
 		return
+	}
+	// failures of other kinds - refusals and not-found answers - are retried like any other: the grant or
+	// the secret may arrive while the program starts (only a file-backed client gives up at once)
+	for _, kind := range []string{"denied", "notfound"} {
+		for _, l := range lists[:4] {
+			for _, ca := range []string{"none", "partial"} {
+				for _, sa := range []int{1, 2, 3, 12} {
+					for _, sb := range []int{0, 2} {
+						for _, cx := range []string{"none", "10s", "3s"} {
+							c := c10cfg{list: l.name, names: l.names, cache: ca, script: map[string]int{"a": sa}, ctx: cx, failKind: kind}
+							if len(l.names) > 1 {
+								c.script["b"] = sb
+							} else if sb != 0 {
+								continue
+							}
+							o := runC10(t, c)
+							sec.Evaluations++
+							sec.Nontrivial++
+							sec.Extra["refusal_and_not_found_failures"]++
+							if kind, msg := c10Check(c, o); kind != "" {
+								rep.Violate(sec.Name, "construct/"+kind+": "+c.String(), c.String()+": "+msg, map[string]any{"config": c.String()})
+							}
+						}
+					}
+				}
+			}
+		}
 	}
 	// the same with the caller's own poll ticker configured: the retry pauses of start-up are not polls
 	for _, l := range lists[:2] {
